@@ -148,9 +148,16 @@ theorem runBody_log (i : Nat) (t : Task) (dry : Bool) (e : Env) (s : State) :
   split
   · left; exact onError_log t s
   · split
-    · left; split
-      · exact hmk.2.2.1
-      · rfl
+    · left
+      have h1 : (if cfg.dryMkdir = true then mkdirTask t s else s).log = s.log := by
+        split
+        · exact hmk.2.2.1
+        · rfl
+      split
+      · simp only; split
+        · rw [onError_log]; exact h1
+        · exact h1
+      · exact h1
     · right
       split
       · exact ⟨_, _, by simp only [hmk.2.2.1]; rfl⟩
@@ -167,7 +174,7 @@ theorem invoke_marks_other {j : Nat} {tj : Task} (htj : pr.tasks[j]? = some tj) 
     (x : Bytes) (hx : Ts tj → x ≠ tsKey tj) :
     aget (invoke Cfg.fixed H pr j m e s).1.marks x = aget s.marks x := by
   by_cases hro : m.readOnly = true
-  · rw [(invoke_readOnly Cfg.fixed H pr rfl rfl j m e s hro).1]
+  · rw [(invoke_readOnly Cfg.fixed H pr rfl rfl rfl j m e s hro).1]
   · cases m with
     | run =>
       rw [invoke_run Cfg.fixed H pr htj]
@@ -189,7 +196,7 @@ theorem invoke_log (j : Nat) (m : Mode) (e : Env) (s : State) :
     (invoke Cfg.fixed H pr j m e s).1.log = s.log ∨
     ∃ fp ok, (invoke Cfg.fixed H pr j m e s).1.log = s.log ++ [⟨j, fp, e.now, ok⟩] := by
   by_cases hro : m.readOnly = true
-  · left; rw [(invoke_readOnly Cfg.fixed H pr rfl rfl j m e s hro).1]
+  · left; rw [(invoke_readOnly Cfg.fixed H pr rfl rfl rfl j m e s hro).1]
   · cases htj : pr.tasks[j]? with
     | none =>
       left
